@@ -54,6 +54,9 @@ CHECKS = {
  'C11': (['asan'], 'event-log monitor: result of subs/xreplace/msubs/ssubs evaluated by mpmath vs the library input tree with keys replaced by the monitor; no-op and identity maps must be eq; cache on/off must be eq',
          'Random expressions x maps (numbers, swaps, chains, expressions, sub-expression keys with the sound fresh-symbol clause) through all four substitution entry points with both cache settings.',
          'Sub-expression keys are judged by the sound clause only (whether an occurrence is replaced is the library choice).', 'DESIGN.md 3/C11'),
+ 'C36': (['asan'], 'event-log monitor: each transformation result evaluated by mpmath vs the library input tree (n/d, re + I*im and realness of re/im via conjugate, rewrites, conjugate vs mpmath conj) in the domain the property names + structural negative-exponent check',
+         'Random expressions over trig/hyperbolic functions and inverses, nested fractions and numeric complex expressions are transformed by the real library; every output is judged by value.',
+         'as_numer_denom inputs are positive on the positive reals (the stated domain); symbol-free inputs of rewrites/conjugate are not judged (constants on branch cuts).', 'DESIGN.md 3/C36'),
 }
 
 def main():
